@@ -158,7 +158,7 @@ if TERMINAL == 'leaf' and N <= LIMIT:
         'spec.transform': lambda: spec.transform(lambda s: s, lambda s: s),
         'spec.__getstate__': lambda: spec.__getstate__(),
     }
-    if 'custom' not in KIND:      # custom classes of this script are local, cannot be pickled by reference
+    if 'custom' not in KIND and KIND != 'namedtuple':      # classes local to this script cannot be pickled by reference
         others['pickle'] = lambda: pickle.loads(pickle.dumps(spec))
     for name, fn in others.items():
         got = outcome(fn)
@@ -595,22 +595,28 @@ TREES = {
 }
 def spec_of(name, nil=False):
     return optree.tree_structure(TREES[name], none_is_leaf=nil, namespace=NS)
-def use(spec):
+def use(spec, announce=False):
     """exercise a treespec that the engine accepted; exceptions are fine, crashes are not"""
-    n = 0
-    for fn in (lambda: repr(spec), lambda: hash(spec), lambda: spec == spec, lambda: spec.num_leaves,
-               lambda: spec.num_nodes, lambda: spec.num_children, lambda: spec.kind, lambda: spec.type,
-               lambda: spec.paths(), lambda: spec.accessors(), lambda: spec.entries(), lambda: spec.children(),
-               lambda: spec.child(0), lambda: spec.entry(0), lambda: spec.one_level(), lambda: spec.is_leaf(),
-               lambda: spec.is_one_level(), lambda: spec.unflatten(list(range(max(spec.num_leaves, 0)))),
-               lambda: spec.unflatten([]), lambda: spec.walk(list(range(max(spec.num_leaves, 0))), lambda t, m, c: c, None),
-               lambda: spec.traverse(list(range(max(spec.num_leaves, 0))), None, None),
-               lambda: spec.transform(lambda s: s, lambda s: s), lambda: spec.compose(spec),
-               lambda: spec.broadcast_to_common_suffix(spec), lambda: spec.is_prefix(spec), lambda: spec.is_suffix(spec),
-               lambda: spec.flatten_up_to(spec.unflatten(list(range(max(spec.num_leaves, 0))))),
-               lambda: pickle.dumps(spec), lambda: spec.__getstate__(), lambda: len(spec)):
-        outcome(fn); n += 1
-    return n
+    nl = lambda: list(range(max(spec.num_leaves, 0)))
+    for name, fn in (
+            ('repr(s)', lambda: repr(spec)), ('hash(s)', lambda: hash(spec)), ('s == s', lambda: spec == spec),
+            ('s.num_leaves', lambda: spec.num_leaves), ('s.num_nodes', lambda: spec.num_nodes),
+            ('s.num_children', lambda: spec.num_children), ('s.kind', lambda: spec.kind), ('s.type', lambda: spec.type),
+            ('s.paths()', lambda: spec.paths()), ('s.accessors()', lambda: spec.accessors()), ('s.entries()', lambda: spec.entries()),
+            ('s.children()', lambda: spec.children()), ('s.child(0)', lambda: spec.child(0)), ('s.entry(0)', lambda: spec.entry(0)),
+            ('s.one_level()', lambda: spec.one_level()), ('s.is_leaf()', lambda: spec.is_leaf()),
+            ('s.is_one_level()', lambda: spec.is_one_level()), ('s.unflatten(leaves)', lambda: spec.unflatten(nl())),
+            ('s.unflatten([])', lambda: spec.unflatten([])), ('s.walk(leaves, f_node)', lambda: spec.walk(nl(), lambda t, m, c: c, None)),
+            ('s.traverse(leaves)', lambda: spec.traverse(nl(), None, None)),
+            ('s.transform(f, f)', lambda: spec.transform(lambda s: s, lambda s: s)), ('s.compose(s)', lambda: spec.compose(spec)),
+            ('s.broadcast_to_common_suffix(s)', lambda: spec.broadcast_to_common_suffix(spec)),
+            ('s.is_prefix(s)', lambda: spec.is_prefix(spec)), ('s.is_suffix(s)', lambda: spec.is_suffix(spec)),
+            ('s.flatten_up_to(tree)', lambda: spec.flatten_up_to(spec.unflatten(nl()))),
+            ('pickle.dumps(s)', lambda: pickle.dumps(spec)), ('s.__getstate__()', lambda: spec.__getstate__()),
+            ('len(s)', lambda: len(spec))):
+        if announce:
+            print('OP: ' + name, flush=True)
+        outcome(fn)
 '''
 
 _INDEX_BODY = _ARGS_COMMON + r'''
@@ -703,6 +709,7 @@ STATE = eval(P['state'], {'state': state, 'nodes': state[0], 'NT': NT, 'Cu': Cu,
                           'R': lambda i, j, v: (tuple(tuple(v if (jj == j) else x for jj, x in enumerate(nd)) if ii == (i % len(state[0])) else nd
                                                       for ii, nd in enumerate(state[0])), state[1], state[2])})
 fresh = optree.PyTreeSpec.__new__(optree.PyTreeSpec)
+print('OP: __setstate__', flush=True)
 try:
     fresh.__setstate__(STATE)
 except BaseException as e:
@@ -711,7 +718,7 @@ except BaseException as e:
         violation('__setstate__(%s) on %r: SystemError %s' % (P['state'], base, e))
     sys.exit(0)
 print('OUTCOME: accepted')
-use(fresh)        # accepted: every later use must be memory safe
+use(fresh, announce=True)        # accepted: every later use must be memory safe
 sys.exit(0)
 '''
 
@@ -768,6 +775,30 @@ def state_mutations():
     return out
 
 
+STATE_FIELDS = ['kind', 'arity', 'node_data', 'node_entries', 'custom_type', 'num_leaves', 'num_nodes', 'original_keys']
+
+
+def state_mutation_class(m: str) -> str:
+    """'R(-1, 1, -1)' -> 'node field arity: negative number' (independent of the node index and of the treespec)"""
+    if not m.startswith('R('):
+        return 'outer structure of the state'
+    i, j, v = m[2:-1].split(', ', 2)
+    field = STATE_FIELDS[int(j)]
+    if field == 'kind':
+        return 'node field kind: another kind number'
+    try:
+        n = eval(v, {'__builtins__': {}})
+    except Exception:
+        n = None
+    if isinstance(n, int) and not isinstance(n, bool):
+        cat = 'negative number' if n < 0 else ('huge number' if n >= 10 ** 6 else 'small number')
+    elif v == 'None':
+        cat = 'None'
+    else:
+        cat = 'object of another type'
+    return f'node field {field}: {cat}'
+
+
 def args_cases(tier, seed):
     cases = []
     trees = ['leaf', 'none', 'empty_tuple', 'tuple', 'list', 'dict', 'odict', 'ddict', 'deque', 'namedtuple', 'structseq',
@@ -793,14 +824,20 @@ def args_cases(tier, seed):
         if tier == 'quick':
             rng = random.Random(f'{seed}/{t}')
             fixed = [m for m in muts if not m.startswith('R(')]
-            rs = [m for m in muts if m.startswith('R(')]
-            ms = fixed + rng.sample(rs, 160)
+            root = [m for m in muts if m.startswith('R(-1,')]
+            rs = [m for m in muts if m.startswith('R(') and not m.startswith('R(-1,')]
+            ms = fixed + root + rng.sample(rs, 60)
         for m in ms:
-            p = {'tree': t, 'nil': False, 'state': m}
+            p = {'tree': t, 'nil': False, 'state': m, 'mutation_class': state_mutation_class(m)}
             cases.append((f'args/state/{t}/{m}', _script(p, _STATE_BODY), p))
+    return cases
+
+
+def uninit_cases(tier):
+    cases = []
     for cls, cat, expr in UNINIT_EXPRS:
         p = {'cls': cls, 'expr': expr, 'must_raise': expr != 'iter(fresh)', 'entry_point': cat}
-        cases.append((f'args/uninit/{cls}/{expr}', _script(p, _UNINIT_BODY), p))
+        cases.append((f'uninit/{cls}/{expr}', _script(p, _UNINIT_BODY), p))
     return cases
 
 
@@ -1055,8 +1092,6 @@ def _key_for(cid: str, p: dict, o: U.CaseOutcome) -> str:
         return f'C16.mutation_{how}'
     if sect == 'args':
         sub = cid.split('/')[1]
-        if sub == 'uninit':
-            return 'C16.uninitialized_instance'
         if sub == 'state':
             return f'C16.malformed_pickle_state_{how}'
         if sub == 'index':
@@ -1064,6 +1099,8 @@ def _key_for(cid: str, p: dict, o: U.CaseOutcome) -> str:
         if sub == 'leafcount':
             return f'C16.wrong_leaf_count_{how}'
         return f'C16.mismatched_treespec_arguments_{how}'
+    if sect == 'uninit':
+        return 'C16.uninitialized_instance'
     if sect == 'conf':
         return f'C16.argument_confusion_{how}'
     if sect == 'deep':
@@ -1101,6 +1138,7 @@ def run(tier: str, seed: int) -> BoundedReport:
         return o
 
     uninit_seen: dict = {}
+    state_classes_seen: set = set()
     # one pool for everything: batches of the sections A-E and the single-case children of section F
     jobs = []
     for name, cases, kw in sections:
@@ -1109,12 +1147,17 @@ def run(tier: str, seed: int) -> BoundedReport:
             jobs.append((name, i, [(cid, code) for cid, code, _ in cases[i:i + bs]], kw))
     for i, case in enumerate(deep):
         jobs.append(('deep', i, case, None))
+    # reading an uninitialised instance is undefined behaviour whose symptom depends on the state of the heap:
+    # one fresh child per case keeps the observation deterministic
+    uninit = uninit_cases(tier)
+    for i, case in enumerate(uninit):
+        jobs.append(('uninit', i, case, None))
     # long jobs first
     jobs.sort(key=lambda j: {'deep': 0, 'depth': 1, 'selfref': 1}.get(j[0], 2))
 
     def run_job(job):
         name, i, payload, kw = job
-        if name == 'deep':
+        if name in ('deep', 'uninit'):
             return name, i, [run_deep(payload)]
         return name, i, U.run_batch(payload, **kw)
 
@@ -1123,7 +1166,7 @@ def run(tier: str, seed: int) -> BoundedReport:
     for name, i, outs in done:
         by_section.setdefault(name, []).append((i, outs))
     all_results = []
-    for name, cases, _ in sections + [('deep', deep, None)]:
+    for name, cases, _ in sections + [('uninit', uninit, None), ('deep', deep, None)]:
         outs = [o for _, os_ in sorted(by_section.get(name, []), key=lambda x: x[0]) for o in os_]
         all_results.append((name, cases, outs))
 
@@ -1154,10 +1197,21 @@ def run(tier: str, seed: int) -> BoundedReport:
                     what = f"uninitialized {p['cls']} instance: {p['expr']} returned a result instead of raising"
                 sink.add(Finding(key=key, what=what, script=code, data={'case': cid, 'params': p, 'status': o.status}), cap=6)
                 continue
+            if key == 'C16.malformed_pickle_state_crash' and o.confirmed_alone is not False:
+                cls = p['mutation_class']
+                if cls in state_classes_seen or len(state_classes_seen) >= 8:
+                    sink.counts[key] = sink.counts.get(key, 0) + 1
+                    continue
+                state_classes_seen.add(cls)
+                what = (f"malformed pickle state ({cls}; state expression {p['state']} on the state of "
+                        f"tree_structure of the '{p['tree']}' tree): {o.last_op or 'a treespec operation'} crashed with signal {U.signum(o.detail)}")
+                sink.add(Finding(key=key, what=what, script=code, data={'case': cid, 'params': p, 'status': o.status}), cap=8)
+                continue
             if o.confirmed_alone is False:
                 what += ' [crashed inside a batch of cases, not reproduced when run alone: earlier cases of the batch may have corrupted memory]'
-            sink.add(Finding(key=key, what=what, script=code, data={'case': cid, 'params': p, 'status': o.status,
-                                                                      'confirmed_alone': o.confirmed_alone}))
+            script = U.watchdog_script(code, 120.0) if o.status == 'timeout' else code
+            sink.add(Finding(key=key, what=what, script=script, data={'case': cid, 'params': p, 'status': o.status,
+                                                                        'confirmed_alone': o.confirmed_alone}))
         stats[name] = st
         if cases:
             samples.append(cases[len(cases) // 2][0])
